@@ -3,6 +3,7 @@ package c07
 import (
 	"errors"
 	"fmt"
+	"sync"
 
 	"golang.org/x/text/language"
 	"seehuhn.de/go/sfnt"
@@ -16,7 +17,8 @@ import (
 // Layouter; the oracle states C07 on it directly: no panic, every rune of the
 // input string appears exactly once in the Text fields of the output, and
 // the result of the i-th call on the reused Layouter equals the result of the
-// same call on a new Layouter.
+// same call on a new Layouter, and does not change when the earlier calls are
+// made in another order.
 //
 // line: !layout gsub-ll gpos-ll gdef ( (rune ...) ... )
 
@@ -58,8 +60,19 @@ func mkInfo(lls []*Lookup) *gtab.Info {
 	}
 }
 
+// simpleFont returns a new Font value over the outlines and the cmap of
+// debug.MakeSimpleFont (built once; they are read-only for the Layouter).  The
+// GSUB, GPOS and GDEF tables are set by the caller, newly built for every font.
+var baseFont = sync.OnceValue(debug.MakeSimpleFont)
+
+func simpleFont() *sfnt.Font {
+	f := *baseFont()
+	f.Gsub, f.Gpos, f.Gdef = nil, nil, nil
+	return &f
+}
+
 func newLayouter(gsub, gpos []*Lookup, gd *Gdef) (*sfnt.Layouter, error) {
-	font := debug.MakeSimpleFont()
+	font := simpleFont()
 	font.Gsub = mkInfo(gsub)
 	font.Gpos = mkInfo(gpos)
 	c := &Case{Gdef: gd}
@@ -77,8 +90,23 @@ func layoutOnce(l *sfnt.Layouter, s string) (st step) {
 	return step{Out: fromInfo(l.Layout(s))}
 }
 
-func layoutHistory(gsub, gpos []*Lookup, gd *Gdef, strs []string) ([]step, error) {
-	l, err := newLayouter(gsub, gpos, gd)
+// makeLayouter calls mk, turning a panic into an error-free observation.
+func makeLayouter(mk func() (*sfnt.Layouter, error)) (l *sfnt.Layouter, err error, panicked string) {
+	defer func() {
+		if e := recover(); e != nil {
+			l, err, panicked = nil, nil, fmt.Sprint(e)
+		}
+	}()
+	l, err = mk()
+	return l, err, ""
+}
+
+// layoutHistoryWith makes ONE Layouter and calls Layout for every string.
+func layoutHistoryWith(mk func() (*sfnt.Layouter, error), strs []string) ([]step, error) {
+	l, err, panicked := makeLayouter(mk)
+	if panicked != "" {
+		return []step{{Panic: true, Msg: "NewLayouter: " + panicked}}, nil
+	}
 	if err != nil {
 		return nil, err
 	}
@@ -94,15 +122,24 @@ func layoutHistory(gsub, gpos []*Lookup, gd *Gdef, strs []string) ([]step, error
 }
 
 func layoutOracle(gsub, gpos []*Lookup, gd *Gdef, strs []string) (v verdict) {
+	return layoutOracleWith(func() (*sfnt.Layouter, error) { return newLayouter(gsub, gpos, gd) }, strs, false)
+}
+
+// layoutOracleWith: mk builds a new font (new tables) and a new Layouter on
+// every call.  wantErr: NewLayouter has to fail (font without cmap).
+func layoutOracleWith(mk func() (*sfnt.Layouter, error), strs []string, wantErr bool) (v verdict) {
 	type res struct {
 		steps []step
 		err   error
 	}
-	r, ok := guarded(func() res { s, e := layoutHistory(gsub, gpos, gd, strs); return res{s, e} })
+	r, ok := guarded(func() res { s, e := layoutHistoryWith(mk, strs); return res{s, e} })
 	if !ok {
 		return verdict{Impl: "hang", Fail: "Layout did not return within the watchdog", Sig: "c07-layout-hang"}
 	}
 	if r.err != nil {
+		if !wantErr {
+			return verdict{Impl: "nolayouter", Fail: "NewLayouter fails on a font with a cmap: " + r.err.Error(), Sig: "c07-layout-newlayouter"}
+		}
 		return verdict{Impl: "nolayouter"}
 	}
 	v.Impl = obsSx(r.steps)
@@ -110,6 +147,9 @@ func layoutOracle(gsub, gpos []*Lookup, gd *Gdef, strs []string) (v verdict) {
 		if v.Fail == "" {
 			v.Fail, v.Sig = fmt.Sprintf(format, args...), sig
 		}
+	}
+	if wantErr {
+		fail("c07-layout-newlayouter", "NewLayouter succeeds on a font without cmap")
 	}
 	for i, s := range r.steps {
 		if s.Panic {
@@ -126,11 +166,26 @@ func layoutOracle(gsub, gpos []*Lookup, gd *Gdef, strs []string) (v verdict) {
 		if !sameRunes(runes(in), runes(s.Out)) {
 			fail("c07-layout-text-lost", "Layout call %d: runes in %q out %q", i, string(runes(in)), string(runes(s.Out)))
 		}
-		fresh, ok := guarded(func() res { s, e := layoutHistory(gsub, gpos, gd, strs[i:i+1]); return res{s, e} })
+		fresh, ok := guarded(func() res { s, e := layoutHistoryWith(mk, strs[i:i+1]); return res{s, e} })
 		if !ok || fresh.err != nil {
 			fail("c07-layout-hang", "fresh Layout %d did not return", i)
 		} else if !sameStep(fresh.steps[0], s) {
 			fail("c07-layout-history-dependent", "Layout call %d on the reused Layouter: %s, on a new Layouter: %s", i, obsSx([]step{s}), obsSx(fresh.steps))
+		}
+		if i >= 2 {
+			for _, perm := range earlierOrders(i) {
+				h2 := make([]string, 0, i+1)
+				for _, j := range perm {
+					h2 = append(h2, strs[j])
+				}
+				h2 = append(h2, strs[i])
+				other, ok := guarded(func() res { s, e := layoutHistoryWith(mk, h2); return res{s, e} })
+				if !ok || other.err != nil {
+					fail("c07-layout-hang", "permuted history before Layout call %d did not return", i)
+				} else if len(other.steps) != i+1 || !sameStep(other.steps[i], s) {
+					fail("c07-layout-order-dependent", "Layout call %d after the earlier calls in order %v gives %s, in the original order %s", i, perm, obsSx(other.steps[len(other.steps)-1:]), obsSx([]step{s}))
+				}
+			}
 		}
 	}
 	return v
